@@ -427,7 +427,15 @@ class Flow:
                 return t
         return truth(self.eval(e, env))
 
+    _ISINSTANCE_TYPES = {"int": int, "float": float, "str": str, "bool": bool, "dict": dict, "tuple": tuple, "list": list, "bytes": bytes, "complex": complex}
+
     def test_call(self, e, env):
+        # isinstance(<constant>, builtin type(s)) is decided on the constant (n.b. bool is an int)
+        if isinstance(e.func, ast.Name) and e.func.id == "isinstance" and len(e.args) == 2 and not e.keywords:
+            v = self.eval(e.args[0], env)
+            ts = e.args[1].elts if isinstance(e.args[1], ast.Tuple) else [e.args[1]]
+            if is_const(v) and all(isinstance(t, ast.Name) and t.id in self._ISINSTANCE_TYPES for t in ts):
+                return isinstance(v[1], tuple(self._ISINSTANCE_TYPES[t.id] for t in ts))
         return None
 
     def test_compare(self, e, env):
